@@ -1,7 +1,7 @@
 (* C06 — find_jobs returns exactly the jobs a per-job reference evaluator accepts.
    Only statements; proofs are in SV.QueryProofs / SV.C06Proofs.  All theorems are parametric in the
    library oracles regex_search (re.search) and isclose (math.isclose). *)
-From SV Require Import Base Json PyVal PyEqEquiv Query QueryProofs C06Proofs C06DocProofs CorrC06.
+From SV Require Import Base Json PyVal PyEqEquiv Query QueryProofs C06Proofs C06DocProofs C06Collide CorrC06.
 
 (* FULL STATEMENT (what the property says): for every corpus c and filter f,
      find c f = Ok R  ->  forall job, In job c -> (mem job R = true <-> matches job f = Ok true).
@@ -133,6 +133,30 @@ Theorem C06_find_job_ids_exact_partial : forall rs ic fuel jobs f pf R,
   forall j, In j jobs -> job_matches rs ic true fuel f j = Ok (mem (j_id j) R).
 Proof. exact find_job_ids_exact_syntactic. Qed.
 Print Assumptions C06_find_job_ids_exact_partial.
+
+(* the reference evaluator of the oracle is defined on the filter AS WRITTEN (add_prefix_all keeps a condition per
+   pair of the user's mapping, also when prefixing makes two keys equal: 'a' next to 'sp.a'); on every collision-free
+   filter it is the per-job evaluation that C06_find_job_ids_exact_partial speaks about, so the theorems above apply to
+   the oracle's reference.  (For colliding filters the implementation used to keep only the last condition; repaired,
+   fixed entry C06 4280995.) *)
+Theorem C06_prefixing_keeps_every_condition : forall fuel f,
+  collision_free fuel f = true -> add_prefix_all fuel f = add_prefix fuel f.
+Proof. exact add_prefix_all_eq. Qed.
+Print Assumptions C06_prefixing_keeps_every_condition.
+
+Theorem C06_reference_is_job_matches : forall rs ic sc fuel f j,
+  collision_free fuel f = true ->
+  job_matches_all rs ic sc fuel f j = job_matches rs ic sc fuel f j.
+Proof. exact job_matches_all_eq. Qed.
+Print Assumptions C06_reference_is_job_matches.
+
+(* a colliding filter is answered as the conjunction of all its conditions (vm_compute on the model of the repaired
+   _add_prefix): {'a': 1, 'sp.a': 2} selects no job, {'a': {'$gt': 0}, 'sp.a': {'$lt': 3}} selects a in {1, 2} *)
+Example C06_colliding_filter_is_conjunction :
+  collision_free 12 (JObj [([97%N], JInt 1); ([115;112;46;97]%N, JInt 2)]) = false /\
+  add_prefix 12 (JObj [([97%N], JInt 1); ([115;112;46;97]%N, JInt 2)])
+  = Ok (JObj [([115;112;46;97]%N, JInt 1); (s_and, JArr [JObj [([115;112;46;97]%N, JInt 2)]])]).
+Proof. vm_compute. split; reflexivity. Qed.
 
 (* the full statement is false of the faithful model: witnesses (replayed on the implementation by
    harness/c06.py; known finding C06 tag 1) *)
